@@ -10,6 +10,7 @@ mod check;
 mod history;
 mod hooks;
 mod model;
+mod objsets;
 mod ops;
 mod oracles;
 mod profiles;
